@@ -15,7 +15,7 @@ from fractions import Fraction
 
 import z3
 
-from vf.common import Plan, Obligation, Outcome, DISCHARGED, FAULT
+from vf.common import Plan, Obligation, Outcome, DISCHARGED, REFUTED, FAULT
 from vf.pyvc.engine import (World, T, Int, Float, Label, LabelSort, SeqT, Rec, SeqV, PyList, FloatV, Unsupp, to_int_term, real_of, s_at)
 from vf.pyvc.contract import FnContract, Case, LoopSpec, obligations_for
 from vf.pyvc.contract import lemma as _lemma
@@ -124,6 +124,21 @@ def rev_slice_term(term, hi):
     return REV(z3.Extract(term, stop + 1, n - 1 - stop))
 
 
+def rev_slice_term_general(term, lo, hi):
+    """python  s[lo:hi:-1]  for ANY lo / hi (None or integer terms) -- slice.indices semantics for step -1:
+    start = n-1 (None) | clamp(lo + n if lo < 0 else lo, -1, n-1);  stop = -1 (None) | clamp(hi + n if hi < 0 else hi, -1, n-1);
+    the elements start, start-1, ..., stop+1 (none when start <= stop)"""
+    n = z3.Length(term)
+
+    def clamp(v, default):
+        if v is None:
+            return default
+        t = to_int_term(v)
+        return z3.If(t < 0, z3.If(t + n < 0, z3.IntVal(-1), t + n), z3.If(t > n - 1, n - 1, t))
+    start, stop = clamp(lo, n - 1), clamp(hi, z3.IntVal(-1))
+    return REV(z3.Extract(term, stop + 1, z3.If(start - stop > 0, start - stop, z3.IntVal(0))))
+
+
 def last_k_reversed(s, k):
     """for 1 <= k <= len(s):  s[:-k-1:-1]  is the reverse of the last k elements"""
     n = z3.Length(s)
@@ -143,6 +158,9 @@ class FoldInterp(Interp):
     def slice(self, obj, lo, hi, st):
         if isinstance(obj, SeqV) and isinstance(st, int) and st == -1 and lo is None and obj.term.sort() == SL:
             return SeqV(rev_slice_term(obj.term, hi), obj.elem, obj.is_tuple)
+        if isinstance(obj, SeqV) and isinstance(st, int) and st == -1 and obj.term.sort() == SL and not isinstance(lo, (SeqV, PyList, tuple)) \
+                and not isinstance(hi, (SeqV, PyList, tuple)):
+            return SeqV(rev_slice_term_general(obj.term, lo, hi), obj.elem, obj.is_tuple)          # explicit start index
         return super().slice(obj, lo, hi, st)
 
     def sym_map(self, it, i, val):
@@ -240,6 +258,35 @@ def build(tier, seed):
         return Outcome(DISCHARGED, "z3", "s[:stop:-1] / s[::-1] model agrees with CPython for len 0..5, stop in -8..7 and None")
     plan.add(Obligation("C25/encoder:reversed-slice-model-agrees-with-CPython", "lemma", slice_selfcheck, bounded=True, timeout=240,
                         sample="python slice.indices semantics of s[:stop:-1] on lists of length 0..5"))
+
+    def slice_selfcheck_general():
+        bad, cnt = [], 0
+        t = z3.Const("t", SL)
+        for n in range(0, 6):
+            lst = list(range(n))
+            labs = [z3.Const(f"l{i}", LabelSort) for i in range(n)]
+
+            def lit(xs):
+                return z3.Concat(*[z3.Unit(x) for x in xs]) if len(xs) > 1 else (z3.Unit(xs[0]) if xs else EMPTY)
+            tv = lit(labs)
+            for lo in [None] + list(range(-8, 8)):
+                for hi in [None] + list(range(-8, 8)):
+                    want = lst[lo:hi:-1]
+                    inner = z3.substitute(rev_slice_term_general(t, lo, hi).arg(0), (t, tv))     # the (sub)list whose reverse is taken
+                    cnt += 1
+                    if z3.is_true(z3.simplify(inner == lit([labs[i] for i in reversed(want)]))):
+                        continue
+                    sv = z3.Solver()
+                    sv.set("timeout", 5000)
+                    sv.set("rlimit", 200000000)
+                    sv.add(inner != lit([labs[i] for i in reversed(want)]))
+                    if sv.check() != z3.unsat:
+                        bad.append((n, lo, hi))
+        if bad:
+            return Outcome(FAULT, "z3", f"general reversed-slice model disagrees with CPython on (len, start, stop) = {bad[:5]}")
+        return Outcome(DISCHARGED, "z3", f"s[start:stop:-1] model agrees with CPython on {cnt} (len, start, stop) combinations")
+    plan.add(Obligation("C25/encoder:general-reversed-slice-model-agrees-with-CPython", "lemma", slice_selfcheck_general, bounded=True, timeout=300,
+                        sample="python slice.indices semantics of s[start:stop:-1] on lists of length 0..5, start/stop in -8..7 and None"))
 
     # ---- lemmas: each law by base + step ----------------------------------------------------------------------------------------
     s_, a_, b_, w_ = z3.Consts("s a b w", SL)
@@ -418,9 +465,19 @@ def build(tier, seed):
     def fix_lambda(rng, m):
         m = dict(m)
         if rng is not None:
+            n = rng.randint(0, 6)
             m["scale_factor"] = rng.choice([1.0, 1.5, 2.0, 2.25, 3.0, 3.5, 4.75, 5.0, 1.0 + rng.random() * 5])
-            m["tape"] = {"__class__": "Tape", "operations": [f"L{j}" for j in range(rng.randint(0, 6))]}
+            if n and rng.random() < 0.6:
+                # stratified over the fold-count domain: every (folds, k) cell with 0 <= k <= n is as likely as any other
+                m["scale_factor"] = cell_scale_factor(n, rng.randint(0, 3), rng.randint(0, n), rng.uniform(-0.45, 0.45))
+            m["tape"] = {"__class__": "Tape", "operations": [f"L{j}" for j in range(n)]}
         return m
+
+    def cell_scale_factor(n, folds, k, delta):
+        """a scale factor whose specification counts are (folds, k):  lambda = 1 + 2*folds + 2*(k + delta)/n,  |delta| < 1/2,
+        kept inside the remainder range [0, 2)"""
+        frac = min(max(2.0 * (k + delta) / n, 0.0), 2.0 - 1e-9)
+        return 1.0 + 2 * folds + frac
 
     def fold_case(label, ens, kind):
         return Case(label, {"tape": T("rec", "Tape"), "scale_factor": Float},
@@ -429,6 +486,30 @@ def build(tier, seed):
                     native_gen=fix_lambda, native_call=call_fold)
     fold = FnContract(w, "fold_global", [
         fold_case("any-length-real-scale-factor/shape-of-the-folded-circuit", lambda o, r, nw: ens_counts_shape(o, r, nw, "shape"), "shape")])
+
+    def fold_enumeration():
+        """bounded native stand-in (never counted as proved): the REAL fold_global on real tapes for every fold-count cell
+        (n, folds, k) with n <= 5, folds <= 2, 0 <= k <= n (three scale factors per cell), judged by the executable contract"""
+        from vf.pyvc.contract import replay_case
+        case = fold.cases[0]
+        cnt = 0
+        for n in range(0, 6):
+            for folds in range(0, 3):
+                for k in range(0, n + 1):
+                    for delta in (-0.3, 0.0, 0.3):
+                        lam = cell_scale_factor(n, folds, k, delta) if n else 1.0 + 2 * folds + (delta + 0.3)
+                        model = {"tape": {"__class__": "Tape", "operations": [f"L{j}" for j in range(n)]}, "scale_factor": lam, "__generated__": True}
+                        rp = replay_case(fold, case, model)
+                        cnt += 1
+                        if rp.get("confirmed"):
+                            return Outcome(REFUTED, "native", f"fold_global violates its contract for n_ops={n}, scale_factor={lam!r}",
+                                           witness=dict(n_ops=n, scale_factor=lam, folds=folds, partial_fold=k), replay=rp)
+                        if rp.get("confirmed") is None:
+                            return Outcome(FAULT, "native", f"executable contract did not evaluate for n_ops={n}, scale_factor={lam!r}: {rp.get('note')}")
+        return Outcome(DISCHARGED, "native", f"{cnt} real runs: every (n <= 5, folds <= 2, 0 <= k <= n) cell, 3 scale factors each")
+    plan.add(Obligation("C25/mitigate:fold_global/native-enumeration-of-fold-count-cells", "post", fold_enumeration, func=(MIT, "fold_global"), bounded=True,
+                        timeout=300, sample="real fold_global on real tapes, all (n_ops <= 5, global folds <= 2, partial fold 0..n_ops) cells: "
+                        "exact folded word, gate count within 1 of scale*n, same unitary matrix"))
 
     # ---- consequences of the shape (no program involved): gate count and same unitary ----------------------------------------------
     Uc = z3.Const("U", SL)
